@@ -2,7 +2,31 @@
 #![deny(clippy::enum_glob_use)]
 
 pub mod command_line;
+#[cfg(not(pasfmt_verif))]
 pub mod file_formatter;
+#[cfg(pasfmt_verif)]
+pub mod verif_seam;
+// Under the verification guard the unmodified `file_formatter.rs` is compiled with the names
+// `std`, `rayon`, `print!` and `eprintln!` bound to the simulation seam (see `verif_seam.rs`).
+#[cfg(pasfmt_verif)]
+pub mod file_formatter {
+    use crate::verif_seam::shadow::{rayon, std};
+    #[allow(unused_macros)]
+    macro_rules! print {
+        ($($arg:tt)*) => { crate::verif_seam::stdout_print(format_args!($($arg)*)) };
+    }
+    #[allow(unused_macros)]
+    macro_rules! println {
+        () => { crate::verif_seam::stdout_print(format_args!("\n")) };
+        ($($arg:tt)*) => { crate::verif_seam::stdout_print(format_args!("{}\n", format_args!($($arg)*))) };
+    }
+    #[allow(unused_macros)]
+    macro_rules! eprintln {
+        () => { crate::verif_seam::stderr_line(format_args!("")) };
+        ($($arg:tt)*) => { crate::verif_seam::stderr_line(format_args!($($arg)*)) };
+    }
+    include!("file_formatter.rs");
+}
 pub mod formatting_orchestrator;
 
 pub trait ErrHandler: Fn(anyhow::Error) + Sync {}
